@@ -38,7 +38,7 @@ DATASETS = {
 def plan(tier, seed):
     shards = []
     if tier == 'quick':
-        sets = ['pairwise-randomized-cap', 'target-coverage', 'target-randomized-interactions', 'pairwise-3mr']
+        sets = ['pairwise-randomized-cap', 'target-coverage', 'target-randomized-interactions', 'pairwise-3mr', 'target-randomized-subsampled']
         pools, dseeds = [1, 2, 3, 8, 16], [0, 1]
     else:
         sets = list(DATASETS)
